@@ -222,6 +222,62 @@ def cell_vols(space):
 # ---------------------------------------------------------------------------
 # systems
 
+def large_system(r, min_cells=4100, max_cells=5300, nspecies=(1, 2), reactions=True):
+    """a description with more than 4096 cells (array lengths beyond the block sizes fast paths like to use): grids of
+    several shapes with two environments, unequal per-environment constants, integer amounts"""
+    h = 10 ** r.uniform(-7, -5)
+    envs = r.sample(ENVS, 2)
+    shapes = [(17, 17, 17), (70, 70, 1), (4100, 1, 1), (65, 8, 8), (1, 4500, 1), (16, 16, 17), (2, 3, 700)]
+    shapes = [s_ for s_ in shapes if min_cells <= s_[0] * s_[1] * s_[2] <= max_cells] or [(min_cells, 1, 1)]
+    w, hh, d = r.choice(shapes)
+    n = w * hh * d
+    S = r.randint(*nspecies)
+    labels = r.sample([l for l in LABELS if not l[0].isdigit()], S)
+    species = [{"label": l, "D": per_env(r, envs, lambda: 10 ** r.uniform(-1.0, 0.5) * h * h), "density": 0.0, "chstt": False} for l in labels]
+    rx = []
+    if reactions and S >= 2:
+        V = h ** 3
+        rx.append({"sub": {labels[0]: 1}, "prod": {labels[1]: 1}, "kf": per_env(r, envs, lambda: r.uniform(0.1, 2.0)), "kr": r.uniform(0.0, 1.0), "label": None})
+    space = {"type": "grid", "w": w, "h": hh, "d": d, "cell_env": [r.randrange(2) for _ in range(n)], "cell_vol": h ** 3 * r.uniform(0.5, 2.0),
+             "bc": dict(r.choice(BCS))}
+    state = [float(r.choice([0, r.randint(1, 60)])) for _ in range(S * n)]
+    for k in (4095, 4096, 8191, S * n - 1):
+        if k < S * n:
+            state[k] = float(r.randint(5, 60))
+    chst = [int(r.random() < 0.02) for _ in range(S * n)]
+    for k in (S * n - 1, S * n - 2, 4097):
+        if k < S * n and r.random() < 0.7:
+            chst[k] = 1
+    return {"envs": envs, "species": species, "reactions": rx, "space": space, "state": state, "chemostats": chst, "h": h}
+
+
+def many_species_system(r, nspecies=(33, 70)):
+    """33..70 species (more than a 32-bit mask can flag) on a couple of cells, a few conversions between low- and
+    high-index species, chemostat flags on species of index 31 and beyond"""
+    h = 10 ** r.uniform(-7, -5)
+    envs = r.sample(ENVS, 2)
+    S = r.randint(*nspecies)
+    labels = ["S%d" % k for k in range(S)]
+    species = [{"label": l, "D": (10 ** r.uniform(-1.0, 0.5) * h * h if r.random() < 0.7 else 0.0), "density": 0.0, "chstt": False} for l in labels]
+    rx = []
+    for _ in range(r.randint(2, 6)):
+        a, b = r.sample(range(S), 2)
+        rx.append({"sub": {labels[a]: 1}, "prod": {labels[b]: 1}, "kf": r.uniform(0.1, 2.0), "kr": r.uniform(0.0, 1.0), "label": None})
+    if r.random() < 0.5:
+        space = {"type": "grid", "w": r.randint(2, 3), "h": 1, "d": 1, "cell_env": None, "cell_vol": h ** 3, "bc": dict(r.choice(BCS))}
+        n = space["w"]
+        space["cell_env"] = [r.randrange(2) for _ in range(n)]
+    else:
+        space = rand_graph(r, 2, h, nodes=(2, 3), simple=True, p_edge=0.9)
+        n = len(space["nodes"])
+    state = [float(r.randint(1, 60)) for _ in range(S * n)]
+    chst = [0] * (S * n)
+    for s_ in {31, 32, 33, S - 1, r.randrange(S), r.randrange(31, S)}:
+        if s_ < S:
+            chst[s_ * n + r.randrange(n)] = 1
+    return {"envs": envs, "species": species, "reactions": rx, "space": space, "state": state, "chemostats": chst, "h": h}
+
+
 def default_state(desc):
     """density(env | default | 0) x volume, species-major, in molecules"""
     sp = desc["space"]
@@ -359,6 +415,8 @@ class Rendering:
             s = self.same
         elif parent is not None and self.r.random() < 0.4:
             s = parent
+        elif parent is not None and self.r.random() < 0.1:
+            s = si.DEFAULT_SYS        # a nested level in the documented default units under a parent that is not
         else:
             s = self.sys_draw(self.r)
         if name == "system" and self.molecule_state:
